@@ -780,6 +780,8 @@ func checkC19(c *Ctx) {
 	} else {
 		r.Unk("C19.dump-bools", "dumpVariables/doSet", "-", "anchor not found")
 	}
+	checkHexTables(c, "C19.hex-tables")
+	checkC19Round2(c)
 }
 
 // dependsOnUse: the comparison result flows (through ||/phi) into a MakeInterface of bool.
